@@ -3,7 +3,7 @@
 TIER=quick
 if [ "${1:-}" = quick ] || [ "${1:-}" = thorough ]; then TIER=$1; shift; fi
 mkdir -p /tmp/mut/results
-declare -A REL=( [C01]="C01 C05 C08" [C02]="C02 C13" [C03]="C03 C15" [C04]="C04 C11" [C05]="C05 C01" [C06]="C06" [C07]="C07" [C08]="C08 C02" [C09]="C09" [C10]="C10" [C11]="C11 C04" [C12]="C12" [C13]="C13" [C14]="C14" [C15]="C15 C03" [C16]="C16 C14" [C17]="C17" )
+declare -A REL=( [C01]="C01 C05 C08 C13" [C02]="C02 C13" [C03]="C03 C15" [C04]="C04 C11" [C05]="C05 C01" [C06]="C06" [C07]="C07" [C08]="C08 C02" [C09]="C09" [C10]="C10" [C11]="C11 C04" [C12]="C12" [C13]="C13" [C14]="C14" [C15]="C15 C03 C13" [C16]="C16 C14" [C17]="C17" )
 for id in "$@"; do
   for d in /tmp/mut/$id/_out/m*; do
     [ -f $d/patch.diff ] || continue
